@@ -178,7 +178,7 @@ def run(repo: Repo) -> Result:
     if len(ifs) == 1:
         test = ifs[0].test
         conj = test.values if isinstance(test, ast.BoolOp) and isinstance(test.op, ast.And) else [test]
-        cmp_ = next((x for x in conj if isinstance(x, ast.Compare)), None)
+        cmp_ = next((x for x in conj if isinstance(x, ast.Compare) and len(x.ops) == 1 and isinstance(x.ops[0], ast.Gt)), None)
         if cmp_ is not None and isinstance(cmp_.ops[0], ast.Gt) and attr_chain(cmp_.comparators[0]) == ["self", "env", "loop_iteration_limit"]:
             red = cmp_.left
             if isinstance(red, ast.Call) and callee_name(red) == "reduce" and len(red.args) == 3 and text(red.args[0]) == "mul":
